@@ -88,6 +88,8 @@ pub fn run_config(s: &Sample, cfg: u8, seq: &[(u64, usize)], c: &Counters) -> Re
         3 => { let f = FileOptions::uncached().cache(MonCache::new(SyncCache::<PlainRef, OCV>::new(), c.oh.clone(), c.om.clone()), MonCache::new(SyncCache::<PlainRef, SCV>::new(), c.sh.clone(), c.sm.clone())).password(&s.password).load(s.bytes.clone()).map_err(e)?; run_seq!(f, seq) }
         1 => { let f = FileOptions::uncached().cache(MonCache::new(SyncCache::<PlainRef, OCV>::new(), c.oh.clone(), c.om.clone()), MonCache::new(NoCache, c.sh.clone(), c.sm.clone())).password(&s.password).load(s.bytes.clone()).map_err(e)?; run_seq!(f, seq) }
         2 => { let f = FileOptions::uncached().cache(MonCache::new(NoCache, c.oh.clone(), c.om.clone()), MonCache::new(SyncCache::<PlainRef, SCV>::new(), c.sh.clone(), c.sm.clone())).password(&s.password).load(s.bytes.clone()).map_err(e)?; run_seq!(f, seq) }
+        // the library's own cached set-up (its default caches and options), as most callers open documents
+        4 => { let f = FileOptions::cached().password(&s.password).load(s.bytes.clone()).map_err(e)?; run_seq!(f, seq) }
         _ => { let f = FileOptions::uncached().password(&s.password).load(s.bytes.clone()).map_err(e)?; run_seq!(f, seq) }
     })
 }
@@ -127,6 +129,16 @@ pub fn samples(_seed: u64) -> Vec<Sample> {
         objs[2].1.set("Resources", rf(10));
         // object 9 is free (simple_doc fills the gap 9 with a free entry)
         v.push(Sample { name: "missing-object-one-level-below".into(), bytes: crate::mkpdf::simple_doc(&objs, 1, vec![]), password: vec![] });
+    }
+    // entries that only a strict reader objects to (an optional box with three numbers, an optional entry of the wrong type): the
+    // cached and the uncached way of opening a document must not differ in how strict they are
+    {
+        use crate::mkpdf::{ints, name, Obj};
+        let mut objs = crate::mkpdf::skeleton(2);
+        objs[2].1.set("CropBox", ints(&[1, 2, 3]));
+        objs[3].1.set("Rotate", name("Sideways"));
+        objs[3].1.set("TrimBox", Obj::Str(b"not a box".to_vec()));
+        v.push(Sample { name: "optional-entries-only-strict-rejects".into(), bytes: crate::mkpdf::simple_doc(&objs, 1, vec![]), password: vec![] });
     }
     // an incremental update whose cross-reference stream is a new version of the previous one (same object number): the
     // stream cache is keyed by object number, the two revisions must not be confused while the document is opened
@@ -183,13 +195,13 @@ pub fn run(run: &Run) {
         for i in 0..np + 1 { if let Ok(v) = run_config(s, 0, &[(i, 11)], &none) { alone.insert((i, 11), v[0].clone()); } }
         let check = |seq: &[(u64, usize)], why: &str| {
             run.eval();
-            for cfg in [3u8, 1, 2, 0] {
+            for cfg in [3u8, 1, 2, 4, 0] {
                 let c = Counters { oh: Arc::new(AtomicU64::new(0)), om: Arc::new(AtomicU64::new(0)), sh: Arc::new(AtomicU64::new(0)), sm: Arc::new(AtomicU64::new(0)) };
                 let got = match run_config(s, cfg, seq, &c) {
                     Ok(g) => g,
                     // the same bytes opened without caches a moment ago: a cached configuration that cannot open them answers differently
                     Err(e) if cfg != 0 => {
-                        run.violation(&format!("C12|cache={}|load|error-instead-of-value", ["none", "object", "stream", "both"][cfg as usize]), &format!("{}: opening with this cache configuration fails ({}) while the uncached document opens", s.name, e),
+                        run.violation(&format!("C12|cache={}|load|error-instead-of-value", ["none", "object", "stream", "both", "FileOptions::cached()"][cfg as usize]), &format!("{}: opening with this cache configuration fails ({}) while the uncached document opens", s.name, e),
                             json!({"file": s.name, "config": cfg, "error": e}));
                         return;
                     }
@@ -204,7 +216,7 @@ pub fn run(run: &Run) {
                         // signature: configuration + this call's kind + the kinds that ran before it on the same object
                         let mut before: Vec<&str> = seq[..i].iter().filter(|(j, _)| j == id).map(|(_, kk)| KINDS[*kk]).collect(); before.sort(); before.dedup();
                         let cls = if g.starts_with("PANIC") { g.clone() } else if g.starts_with("Err(") && !exp.starts_with("Err(") { "error-instead-of-value".into() } else if !g.starts_with("Err(") && exp.starts_with("Err(") { "value-instead-of-error".into() } else if g.starts_with("Err(") { "different-error-kind".into() } else { "different-value".into() };
-                        let sig = format!("C12|cache={}|{}|{}", ["none", "object", "stream", "both"][cfg as usize], KINDS[*k], cls);
+                        let sig = format!("C12|cache={}|{}|{}", ["none", "object", "stream", "both", "FileOptions::cached()"][cfg as usize], KINDS[*k], cls);
                         run.violation(&sig, &format!("{} object {}: {} answered {} but alone it answers {} ({})", s.name, id, KINDS[*k], g.chars().take(90).collect::<String>(), exp.chars().take(90).collect::<String>(), why),
                             json!({"file": s.name, "sequence": seq.iter().map(|(i, k)| format!("{}:{}", i, KINDS[*k])).collect::<Vec<_>>(), "call_index": i, "config": cfg, "earlier_calls_on_same_object": before}));
                         return;
